@@ -267,3 +267,43 @@ def streamVisit (ext : Ext) : M (List (FileData × Out Bytes) × List FileData) 
   pure (files, first :: rest)
 
 end ZipVerif.Model
+
+namespace ZipVerif.Model
+open ZipVerif
+
+/-- What a consumer sees that reads `k` bytes of a streamed entry (asking again until it has `k` bytes or
+hits end-of-file or an error) and then drops the handle: the first `k` decoded bytes if there are that
+many — the checksum is only compared by the read that reports end-of-file —, else everything followed by
+the CRC verdict.  Dropping drains the rest of the compressed bytes from the `Take`, bypassing decoders,
+so the device always ends up behind the entry's data (`takeAll` below), whatever `k` is. -/
+def consumeK (declared : UInt32) (decoded : Out Bytes) (k : Nat) : Out Bytes :=
+  match decoded with
+  | .ok d => if k ≤ d.length then .ok (d.take k) else crcCheck false declared d
+  | .err e => .err e
+  | .panic s => .panic s
+
+open M in
+def streamEntryC (ext : Ext) (k : Nat) : M (Option (FileData × Out Bytes)) := do
+  let h ← streamHeader
+  match h with
+  | none => pure none
+  | some f => do
+    let raw ← takeAll f.compressedSize.toNat
+    pure (some (f, consumeK f.crc32 (ext.decode f.method raw) k))
+
+open M in
+/-- The streamed entries under a per-entry consumption pattern (cycled). -/
+def streamEntriesC (ext : Ext) (pattern : List Nat) : (fuel : Nat) → (i : Nat) → M (List (FileData × Out Bytes))
+  | 0, _ => pure []
+  | fuel + 1, i => do
+    let k := match pattern[i % pattern.length]? with
+      | some k => k
+      | none => 0
+    let e ← streamEntryC ext k
+    match e with
+    | none => pure []
+    | some x => do
+      let rest ← streamEntriesC ext pattern fuel (i + 1)
+      pure (x :: rest)
+
+end ZipVerif.Model
